@@ -140,7 +140,7 @@ Definition sp_new : pmap := Eval vm_compute in
 Definition compare_params (self incoming : pmap) : list (bytes * bytes) :=
   flat_map (fun k =>
     match pget k incoming, pget k self with
-    | Some iv, Some v => if beq (lower v) (lower iv) then [] else [(k, iv)]
+    | Some iv, Some v => if beq v iv then [] else [(k, iv)]
     | _, _ => []
     end) TRACKED.
 
@@ -495,7 +495,10 @@ Section World.
                             (tvals (fun k => pget k (c_est cl))) :: lg1 in
           let oos := w_oos w || msg_oos valid (bdefs s) (truth sv1) ss in
           let '(b', evs) := be_query valid (bdefs s) (truth sv1) ss in
-          let '(cm', p') := recv_all (Some (c_map cl)) (pg sv1) evs in
+          let '(cm', _) := recv_all (Some (c_map cl)) (pg sv1)
+                             ((fix upto (l : list revent) : list revent :=
+                                 match l with [] => [] | RC TgOther :: _ => [] | e :: r => e :: upto r end) evs) in
+          let '(_, p') := recv_all (Some (c_map cl)) (pg sv1) evs in
           let cm2 := match cm' with Some m => m | None => c_map cl end in
           let fr := frames evs in
           let lg3 := log_if (negb (is_nil_l fr)) (EvTold c fr) lg2 in
